@@ -2,4 +2,553 @@ import SradModel.Model.Codec
 
 namespace Srad.Codec
 
+/-! ### little-endian -/
+
+theorem le_length (w n : Nat) : (le w n).length = w := by
+  induction w generalizing n with
+  | zero => rfl
+  | succ w ih => simp [le, ih]
+
+theorem unle_le (w n : Nat) : unle (le w n) = n % 2 ^ (8 * w) := by
+  induction w generalizing n with
+  | zero => simp [le, unle, Nat.mod_one]
+  | succ w ih =>
+    have h256 : n % 256 < 256 := Nat.mod_lt _ (by decide)
+    have hp : 2 ^ (8 * (w + 1)) = 256 * 2 ^ (8 * w) := by
+      rw [Nat.mul_succ, Nat.pow_add, Nat.mul_comm]
+    simp only [le, unle, ih, hp, UInt8.toNat_ofNat']
+    rw [Nat.mod_mul, Nat.mod_eq_of_lt h256]
+
+theorem unle_le_of_lt (w n : Nat) (h : n < 2 ^ (8 * w)) : unle (le w n) = n := by
+  rw [unle_le, Nat.mod_eq_of_lt h]
+
+theorem le_unle (w : Nat) (bs : Bytes) (h : bs.length = w) : le w (unle bs) = bs := by
+  induction bs generalizing w with
+  | nil => subst h; rfl
+  | cons b t ih =>
+    subst h
+    have hb : b.toNat < 256 := UInt8.toNat_lt b
+    have h1 : (b.toNat + 256 * unle t) % 256 = b.toNat := by omega
+    have h2 : (b.toNat + 256 * unle t) / 256 = unle t := by omega
+    simp only [List.length_cons, le, unle, h1, h2, UInt8.ofNat_toNat, ih _ rfl]
+
+theorem le_form_aux (w n : Nat) :
+    le w n = (List.range w).map (fun i => UInt8.ofNat (n / 256 ^ i % 256)) := by
+  induction w generalizing n with
+  | zero => rfl
+  | succ w ih =>
+    rw [List.range_succ_eq_map, le, ih]
+    simp [List.map_map, Function.comp_def, Nat.pow_succ, Nat.div_div_eq_div_mul, Nat.mul_comm]
+
+/-! ### fixed-width arrays -/
+
+theorem encodeW_eq_flatMap (w : Nat) (l : List Nat) : encodeW w l = l.flatMap (le w) := by
+  induction l with
+  | nil => rfl
+  | cons x t ih => simp [encodeW, ih]
+
+theorem encodeW_length (w : Nat) (l : List Nat) : (encodeW w l).length = w * l.length := by
+  induction l with
+  | nil => rfl
+  | cons x t ih => simp [encodeW, ih, le_length, Nat.mul_succ, Nat.add_comm]
+
+theorem takeChunks_encodeW (w : Nat) (l : List Nat) (h : ∀ x ∈ l, x < 2 ^ (8 * w)) :
+    takeChunks w l.length (encodeW w l) = l := by
+  induction l with
+  | nil => rfl
+  | cons x t ih =>
+    have hx := h x (by simp)
+    have ht : ∀ y ∈ t, y < 2 ^ (8 * w) := fun y hy => h y (by simp [hy])
+    simp only [List.length_cons, takeChunks, encodeW]
+    rw [List.take_left' (le_length w x), List.drop_left' (le_length w x), unle_le_of_lt w x hx,
+      ih ht]
+
+theorem decodeW_encodeW (w : Nat) (hw : 0 < w) (l : List Nat) (h : ∀ x ∈ l, x < 2 ^ (8 * w)) :
+    decodeW w (encodeW w l) = { res := .ok l, alloc := l.length } := by
+  unfold decodeW
+  rw [encodeW_length, Nat.mul_mod_right, Nat.mul_div_cancel_left _ hw]
+  simp [takeChunks_encodeW w l h]
+
+theorem takeChunks_length (w n : Nat) (bs : Bytes) : (takeChunks w n bs).length = n := by
+  induction n generalizing bs with
+  | zero => rfl
+  | succ n ih => simp [takeChunks, ih]
+
+theorem encodeW_takeChunks (w n : Nat) (bs : Bytes) (h : bs.length = w * n) :
+    encodeW w (takeChunks w n bs) = bs := by
+  induction n generalizing bs with
+  | zero => simp at h; subst h; rfl
+  | succ n ih =>
+    have h1 : (bs.take w).length = w := by
+      rw [List.length_take, h, Nat.mul_succ]; omega
+    have h2 : (bs.drop w).length = w * n := by
+      rw [List.length_drop, h, Nat.mul_succ]; omega
+    simp only [takeChunks, encodeW, le_unle w _ h1, ih _ h2, List.take_append_drop]
+
+theorem decodeW_ok (w : Nat) (bs : Bytes) (l : List Nat)
+    (h : (decodeW w bs).res = .ok l) :
+    bs.length % w = 0 ∧ l = takeChunks w (bs.length / w) bs := by
+  unfold decodeW at h
+  split at h
+  · simp at h
+  · simp at h
+    constructor
+    · omega
+    · exact h.symm
+
+/-! ### string arrays -/
+
+theorem encodeStr_eq_flatMap (l : List Bytes) :
+    encodeStr l = l.flatMap (fun s => s ++ [(0 : UInt8)]) := by
+  induction l with
+  | nil => rfl
+  | cons s t ih => simp [encodeStr, ih]
+
+theorem split0_snoc (cur bs : Bytes) : split0 cur (bs ++ [0]) = split0 cur bs ++ [[]] := by
+  induction bs generalizing cur with
+  | nil => simp [split0]
+  | cons b t ih =>
+    by_cases hb : b = 0
+    · simp [split0, hb, ih]
+    · simp [split0, hb, ih]
+
+theorem encodeStr_split0 (cur bs : Bytes) :
+    encodeStr (split0 cur bs) = cur.reverse ++ bs ++ [0] := by
+  induction bs generalizing cur with
+  | nil => simp [split0, encodeStr]
+  | cons b t ih =>
+    by_cases hb : b = 0
+    · simp [split0, hb, ih, encodeStr]
+    · simp [split0, hb, ih]
+
+theorem split0_length (cur bs : Bytes) : (split0 cur bs).length = bs.count 0 + 1 := by
+  induction bs generalizing cur with
+  | nil => simp [split0]
+  | cons b t ih =>
+    by_cases hb : b = 0
+    · simp [split0, hb, ih]
+    · simp [split0, hb, ih]
+
+theorem split0_append (cur s rest : Bytes) (hs : (0 : UInt8) ∉ s) :
+    split0 cur (s ++ 0 :: rest) = (cur.reverse ++ s) :: split0 [] rest := by
+  induction s generalizing cur with
+  | nil => simp [split0]
+  | cons b t ih =>
+    have hb : b ≠ 0 := fun h => hs (by simp [h])
+    have ht : (0 : UInt8) ∉ t := fun h => hs (by simp [h])
+    simp [split0, hb, ih _ ht]
+
+theorem split0_encodeStr (l : List Bytes) (h : ∀ s ∈ l, (0 : UInt8) ∉ s) :
+    split0 [] (encodeStr l) = l ++ [[]] := by
+  induction l with
+  | nil => rfl
+  | cons s t ih =>
+    have ht : ∀ x ∈ t, (0 : UInt8) ∉ x := fun x hx => h x (by simp [hx])
+    rw [encodeStr, split0_append [] s _ (h s (by simp)), ih ht]
+    simp
+
+theorem encodeStr_getLast? (l : List Bytes) :
+    encodeStr l = [] ∨ (encodeStr l).getLast? = some 0 := by
+  induction l with
+  | nil => left; rfl
+  | cons s t ih =>
+    right
+    rw [encodeStr, List.getLast?_append, List.getLast?_cons]
+    rcases ih with h | h <;> simp [h]
+
+theorem validateAll_ok (valid : Bytes → Bool) (l : List Bytes) (h : ∀ s ∈ l, valid s = true) :
+    validateAll valid l = .ok l := by
+  induction l with
+  | nil => rfl
+  | cons s t ih =>
+    have ht : ∀ x ∈ t, valid x = true := fun x hx => h x (by simp [hx])
+    simp [validateAll, h s (by simp), ih ht]
+
+theorem validateAll_eq (valid : Bytes → Bool) (ps l : List Bytes)
+    (h : validateAll valid ps = .ok l) : l = ps := by
+  induction ps generalizing l with
+  | nil => simp [validateAll] at h; exact h
+  | cons p t ih =>
+    unfold validateAll at h
+    split at h
+    · split at h
+      · next r hr => simp at h; rw [← h, ih r hr]
+      · next e hne => exact absurd h (hne l)
+    · simp at h
+
+theorem validateAll_ne_panic (valid : Bytes → Bool) (ps : List Bytes) :
+    validateAll valid ps ≠ .panic := by
+  induction ps with
+  | nil => simp [validateAll]
+  | cons p t ih =>
+    unfold validateAll
+    split
+    · split
+      · simp
+      · exact ih
+    · simp
+
+theorem decodeStr_encodeStr (valid : Bytes → Bool) (l : List Bytes)
+    (h : ∀ s ∈ l, valid s = true ∧ (0 : UInt8) ∉ s) :
+    decodeStr valid (encodeStr l) = { res := .ok l, alloc := 0 } := by
+  unfold decodeStr
+  rcases encodeStr_getLast? l with h0 | h0
+  · cases l with
+    | nil => rfl
+    | cons s t => simp [encodeStr] at h0
+  · rw [h0]
+    simp [split0_encodeStr l (fun s hs => (h s hs).2), validateAll_ok valid l (fun s hs => (h s hs).1)]
+
+theorem decodeStr_ok (valid : Bytes → Bool) (bs : Bytes) (l : List Bytes)
+    (h : (decodeStr valid bs).res = .ok l) :
+    l.length = bs.count 0 ∧ encodeStr l = bs := by
+  unfold decodeStr at h
+  split at h
+  · next hnone =>
+    simp at h hnone
+    subst h hnone
+    simp [encodeStr]
+  · next last hlast =>
+    split at h
+    · simp at h
+    · next hz =>
+      simp at hz h
+      subst hz
+      obtain ⟨ys, rfl⟩ := List.getLast?_eq_some_iff.mp hlast
+      have := validateAll_eq _ _ _ h
+      rw [split0_snoc, List.dropLast_concat] at this
+      subst this
+      constructor
+      · simp [split0_length]
+      · simp [encodeStr_split0]
+
+/-! ### boolean arrays -/
+
+theorem bitsMsb_packByte8 : ∀ b0 b1 b2 b3 b4 b5 b6 b7 : Bool,
+    bitsMsb (packByte [b0, b1, b2, b3, b4, b5, b6, b7]) = [b0, b1, b2, b3, b4, b5, b6, b7] := by
+  decide
+
+theorem packByteAux_replicate_false (i k : Nat) : packByteAux i (List.replicate k false) = 0 := by
+  induction k generalizing i with
+  | zero => rfl
+  | succ k ih => simp [List.replicate_succ, packByteAux, ih]
+
+theorem packByteAux_append_false (i k : Nat) (c : List Bool) :
+    packByteAux i (c ++ List.replicate k false) = packByteAux i c := by
+  induction c generalizing i with
+  | nil => simp [packByteAux, packByteAux_replicate_false]
+  | cons b t ih => simp [packByteAux, ih]
+
+theorem bitsMsb_packByte_of_length8 (c : List Bool) (h : c.length = 8) :
+    bitsMsb (packByte c) = c := by
+  rcases c with _ | ⟨b0, _ | ⟨b1, _ | ⟨b2, _ | ⟨b3, _ | ⟨b4, _ | ⟨b5, _ | ⟨b6, _ | ⟨b7, _ | ⟨b8, t⟩⟩⟩⟩⟩⟩⟩⟩⟩ <;>
+    simp at h
+  exact bitsMsb_packByte8 ..
+
+theorem bitsMsb_packByte (c : List Bool) (h : c.length ≤ 8) :
+    bitsMsb (packByte c) = c ++ List.replicate (8 - c.length) false := by
+  have : packByte c = packByte (c ++ List.replicate (8 - c.length) false) := by
+    simp [packByte, packByteAux_append_false]
+  rw [this, bitsMsb_packByte_of_length8]
+  simp; omega
+
+theorem topBits_packByte (c : List Bool) (h : c.length ≤ 8) :
+    topBits (packByte c) c.length = c := by
+  simp [topBits, bitsMsb_packByte c h]
+
+theorem bit_eq_bitsMsb (b : UInt8) (j : Nat) (hj : j < 8) :
+    (bitsMsb b)[j]? = some (bit b (7 - j)) := by
+  have : j = 0 ∨ j = 1 ∨ j = 2 ∨ j = 3 ∨ j = 4 ∨ j = 5 ∨ j = 6 ∨ j = 7 := by omega
+  rcases this with h | h | h | h | h | h | h | h <;> subst h <;> rfl
+
+theorem bit_packByte (c : List Bool) (h : c.length ≤ 8) (j : Nat) (hj : j < c.length) :
+    bit (packByte c) (7 - j) = c[j] := by
+  have h1 := bit_eq_bitsMsb (packByte c) j (by omega)
+  rw [bitsMsb_packByte c h, List.getElem?_append_left hj, List.getElem?_eq_getElem hj] at h1
+  exact (Option.some.inj h1).symm
+
+theorem packBits_length (fuel : Nat) (l : List Bool) (h : l.length ≤ 8 * fuel) :
+    (packBits fuel l).length = (l.length + 7) / 8 := by
+  induction fuel generalizing l with
+  | zero =>
+    have : l = [] := List.eq_nil_of_length_eq_zero (by omega)
+    subst this; rfl
+  | succ fuel ih =>
+    unfold packBits
+    cases l with
+    | nil => rfl
+    | cons a t =>
+      simp only [List.isEmpty_cons, Bool.false_eq_true, if_false, List.length_cons]
+      rw [ih]
+      · simp only [List.length_drop, List.length_cons]; omega
+      · simp only [List.length_drop, List.length_cons] at *; omega
+
+theorem packBits_getElem? (fuel : Nat) (l : List Bool) (k : Nat) (h : l.length ≤ 8 * fuel)
+    (hk : 8 * k < l.length) :
+    (packBits fuel l)[k]? = some (packByte ((l.drop (8 * k)).take 8)) := by
+  induction fuel generalizing l k with
+  | zero => omega
+  | succ fuel ih =>
+    unfold packBits
+    have hne : l.isEmpty = false := by
+      cases l with
+      | nil => simp at hk
+      | cons _ _ => rfl
+    rw [hne]
+    cases k with
+    | zero => simp
+    | succ k =>
+      simp only [Bool.false_eq_true, if_false, List.getElem?_cons_succ]
+      rw [ih]
+      · rw [List.drop_drop]
+        congr 4
+        omega
+      · simp only [List.length_drop]; omega
+      · simp only [List.length_drop]; omega
+
+theorem packBits_take_full (fuel : Nat) (l : List Bool) (h : l.length ≤ 8 * fuel) :
+    ((packBits fuel l).take (l.length / 8)).flatMap bitsMsb = l.take (8 * (l.length / 8)) := by
+  induction fuel generalizing l with
+  | zero =>
+    have : l = [] := List.eq_nil_of_length_eq_zero (by omega)
+    subst this; rfl
+  | succ fuel ih =>
+    by_cases h8 : l.length < 8
+    · have : l.length / 8 = 0 := by omega
+      simp [this]
+    · unfold packBits
+      have hne : l.isEmpty = false := by
+        cases l with
+        | nil => simp at h8
+        | cons _ _ => rfl
+      have hd : (l.drop 8).length = l.length - 8 := List.length_drop
+      have hq : l.length / 8 = (l.length - 8) / 8 + 1 := by omega
+      have ih' := ih (l.drop 8) (by omega)
+      rw [hd] at ih'
+      rw [hne, hq]
+      simp only [Bool.false_eq_true, if_false, List.take_succ_cons, List.flatMap_cons, ih']
+      rw [bitsMsb_packByte_of_length8 _ (by simp; omega), Nat.mul_add, Nat.mul_one,
+        Nat.add_comm _ 8, List.take_add]
+
+theorem encodeBool_take4 (l : List Bool) :
+    (encodeBool l).take 4 = le 4 (l.length % 4294967296) := by
+  unfold encodeBool
+  rw [List.take_left' (le_length _ _)]
+
+theorem encodeBool_drop4 (l : List Bool) :
+    (encodeBool l).drop 4 = packBits (l.length + 1) l := by
+  unfold encodeBool
+  rw [List.drop_left' (le_length _ _)]
+
+theorem encodeBool_length (l : List Bool) :
+    (encodeBool l).length = 4 + (l.length + 7) / 8 := by
+  unfold encodeBool
+  rw [List.length_append, le_length, packBits_length _ _ (by omega)]
+
+theorem flatMap_bitsMsb_length (xs : Bytes) : (xs.flatMap bitsMsb).length = 8 * xs.length := by
+  induction xs with
+  | nil => rfl
+  | cons x t ih => simp [List.flatMap_cons, ih, bitsMsb]; omega
+
+theorem decodeBool_encodeBool (l : List Bool) (h : l.length < 4294967296) :
+    (decodeBool (encodeBool l)).res = .ok l := by
+  have hmod : l.length % 4294967296 = l.length := Nat.mod_eq_of_lt h
+  have htake := encodeBool_take4 l
+  have hdrop := encodeBool_drop4 l
+  have hlen := encodeBool_length l
+  have hcount : unle (le 4 l.length) = l.length := unle_le_of_lt 4 _ (by simpa using h)
+  rw [hmod] at htake
+  unfold decodeBool
+  simp only [htake, hdrop, hcount, hlen]
+  rw [if_neg (by omega)]
+  by_cases h0 : l.length = 0
+  · rw [if_pos h0]; simp [List.eq_nil_of_length_eq_zero h0]
+  · rw [if_neg h0, if_neg (by omega)]
+    by_cases h8 : l.length % 8 = 0
+    · rw [if_pos h8, packBits_take_full _ _ (by omega)]
+      have : 8 * (l.length / 8) = l.length := by omega
+      simp [this]
+    · rw [if_neg h8, packBits_getElem? _ _ _ (by omega) (by omega),
+        packBits_take_full _ _ (by omega)]
+      have hc : ((l.drop (8 * (l.length / 8))).take 8).length = l.length % 8 := by
+        rw [List.length_take, List.length_drop]; omega
+      simp only
+      have hd : (l.drop (8 * (l.length / 8))).take 8 = l.drop (8 * (l.length / 8)) :=
+        List.take_of_length_le (by rw [List.length_drop]; omega)
+      rw [← hc, topBits_packByte _ (by omega), hd, List.take_append_drop]
+
+theorem decodeBool_total (bs : Bytes) :
+    (decodeBool bs).res ≠ .panic ∧ (decodeBool bs).alloc ≤ 8 * bs.length := by
+  unfold decodeBool
+  simp only []
+  generalize unle (bs.take 4) = count
+  split
+  · simp
+  · split
+    · simp
+    · split
+      · simp
+      · split
+        · simp; omega
+        · split
+          · next hnone =>
+            rw [List.getElem?_eq_none_iff, List.length_drop] at hnone
+            omega
+          · simp; omega
+
+theorem decodeBool_ok_length (bs : Bytes) (l : List Bool) (h : (decodeBool bs).res = .ok l) :
+    l.length = unle (bs.take 4) := by
+  unfold decodeBool at h
+  simp only [] at h
+  generalize unle (bs.take 4) = count at h
+  split at h
+  · simp at h
+  · split at h
+    · simp at h; subst h; simp [*]
+    · split at h
+      · simp at h
+      · split at h
+        · simp at h; subst h
+          rw [flatMap_bitsMsb_length, List.length_take, List.length_drop]; omega
+        · split at h
+          · simp at h
+          · simp at h; subst h
+            rw [List.length_append, flatMap_bitsMsb_length, List.length_take, List.length_drop]
+            simp [topBits, bitsMsb]; omega
+
+theorem unle_lt (bs : Bytes) : unle bs < 2 ^ (8 * bs.length) := by
+  induction bs with
+  | nil => simp [unle]
+  | cons b t ih =>
+    have hb : b.toNat < 256 := UInt8.toNat_lt b
+    have hp : 2 ^ (8 * (t.length + 1)) = 256 * 2 ^ (8 * t.length) := by
+      rw [Nat.mul_succ, Nat.pow_add, Nat.mul_comm]
+    simp only [unle, List.length_cons, hp]
+    generalize 2 ^ (8 * t.length) = P at *
+    have : 256 * (unle t + 1) ≤ 256 * P := Nat.mul_le_mul_left _ ih
+    omega
+
+theorem unle_take4_lt (bs : Bytes) : unle (bs.take 4) < 4294967296 := by
+  have h := unle_lt (bs.take 4)
+  have h2 : (bs.take 4).length ≤ 4 := by simp [List.length_take]; omega
+  have : 2 ^ (8 * (bs.take 4).length) ≤ 2 ^ (8 * 4) :=
+    Nat.pow_le_pow_right (by decide) (by omega)
+  omega
+
+/-! ### scalars and datatype-directed decoding -/
+
+theorem scalar_roundtrip (t : STy) (v : SV) (h : t.holds v = true) :
+    fromProto t (toProto t v) = .ok v := by
+  cases t <;> cases v <;> simp [STy.holds, STy.width] at h <;> simp [toProto, fromProto] <;>
+    first | exact h | exact of_decide_eq_true h
+
+theorem fromProto_ne_panic (t : STy) (pv : PV) : fromProto t pv ≠ .panic := by
+  cases t <;> cases pv <;> simp [fromProto]
+
+theorem kindOf_eq (valid : Bytes → Bool) (dt : DT) (pv : PV) :
+    kindOf valid dt pv =
+      match runDecoder valid (kindArm dt).2 pv with
+      | .ok v => .ok ((kindArm dt).1, v)
+      | .err e => .err e
+      | .panic => .panic := rfl
+
+theorem kindArm_fst (dt : DT) : (kindArm dt).1 = dt := by
+  cases dt <;> rfl
+
+theorem liftDec_ne_panic {α} (d : Dec α) (f : α → KV) (h : d.res ≠ .panic) :
+    liftDec d f ≠ .panic := by
+  unfold liftDec
+  split <;> simp_all
+
+theorem templateValue_ne_panic (d : Option Bool) (r : Bool) : templateValue d r ≠ .panic := by
+  unfold templateValue
+  split <;> simp
+
+theorem decodeW_ne_panic (w : Nat) (bs : Bytes) : (decodeW w bs).res ≠ .panic := by
+  unfold decodeW
+  split <;> simp
+
+theorem decodeStr_ne_panic (valid : Bytes → Bool) (bs : Bytes) :
+    (decodeStr valid bs).res ≠ .panic := by
+  unfold decodeStr
+  split
+  · simp
+  · split
+    · simp
+    · exact validateAll_ne_panic _ _
+
+theorem runDecoder_ne_panic (valid : Bytes → Bool) (d : Decoder) (pv : PV) :
+    runDecoder valid d pv ≠ .panic := by
+  unfold runDecoder
+  split
+  · split
+    · simp
+    · simp
+    · next h => exact absurd h (fromProto_ne_panic _ _)
+  · exact liftDec_ne_panic _ _ (decodeW_ne_panic _ _)
+  · exact liftDec_ne_panic _ _ (decodeBool_total _).1
+  · exact liftDec_ne_panic _ _ (decodeStr_ne_panic _ _)
+  · simp
+  · simp
+  · exact templateValue_ne_panic _ _
+  · simp
+  · simp
+  · simp
+
+theorem kindOf_ne_panic (valid : Bytes → Bool) (dt : DT) (pv : PV) :
+    kindOf valid dt pv ≠ .panic := by
+  rw [kindOf_eq]
+  have := runDecoder_ne_panic valid (kindArm dt).2 pv
+  split <;> simp_all
+
+theorem kindOf_name (valid : Bytes → Bool) (dt k : DT) (pv : PV) (v : KV)
+    (h : kindOf valid dt pv = .ok (k, v)) : k = dt := by
+  rw [kindOf_eq] at h
+  split at h <;> simp at h
+  rw [← h.1, kindArm_fst]
+
+theorem kindOf_of_runDecoder (valid : Bytes → Bool) (dt : DT) (d : Decoder) (pv : PV) (v : KV)
+    (harm : (kindArm dt).2 = d) (h : runDecoder valid d pv = .ok v) :
+    kindOf valid dt pv = .ok (dt, v) := by
+  rw [kindOf_eq, harm, h, kindArm_fst]
+
+theorem arrW_width_pos (dt : DT) (w : Nat) (harm : (kindArm dt).2 = .arrW w) : 0 < w := by
+  cases dt <;> simp [kindArm] at harm <;> omega
+
+theorem decodeW_alloc_le (w : Nat) (bs : Bytes) : (decodeW w bs).alloc ≤ bs.length := by
+  unfold decodeW
+  split
+  · simp
+  · exact Nat.div_le_self _ _
+
+theorem decodeStr_alloc (valid : Bytes → Bool) (bs : Bytes) : (decodeStr valid bs).alloc = 0 := by
+  unfold decodeStr
+  split
+  · rfl
+  · split <;> rfl
+
+theorem decodeW_exact (w : Nat) (bs : Bytes) (l : List Nat)
+    (h : (decodeW w bs).res = .ok l) :
+    l.length * w = bs.length ∧ encodeW w l = bs ∧ (decodeW w (encodeW w l)).res = .ok l := by
+  obtain ⟨hm, hl⟩ := decodeW_ok w bs l h
+  have hlen : bs.length = w * (bs.length / w) := by
+    have := Nat.div_add_mod bs.length w
+    omega
+  have henc : encodeW w l = bs := by rw [hl]; exact encodeW_takeChunks w _ bs hlen
+  refine ⟨?_, henc, by rw [henc]; exact h⟩
+  rw [hl, takeChunks_length, Nat.mul_comm]; exact hlen.symm
+
+theorem encodeBool_bit (l : List Bool) (i : Nat) (hi : i < l.length) :
+    ∃ b, (encodeBool l)[4 + i / 8]? = some b ∧ bit b (7 - i % 8) = l[i] := by
+  have hget : (encodeBool l)[4 + i / 8]? = (packBits (l.length + 1) l)[i / 8]? := by
+    rw [← encodeBool_drop4, List.getElem?_drop]
+  have hc : ((l.drop (8 * (i / 8))).take 8).length ≤ 8 := by
+    rw [List.length_take]; omega
+  have hj : i % 8 < ((l.drop (8 * (i / 8))).take 8).length := by
+    rw [List.length_take, List.length_drop]; omega
+  refine ⟨_, hget.trans (packBits_getElem? _ l (i / 8) (by omega) (by omega)), ?_⟩
+  rw [bit_packByte _ hc _ hj, List.getElem_take, List.getElem_drop]
+  congr 1
+  omega
+
 end Srad.Codec
